@@ -150,18 +150,21 @@ def check(prop, tier, seed, replay=None, repo=None, quiet=False):
             if len(samples) < 6:
                 samples.append(s)
     # cross-configuration clause: same case, different hash seed => same observable result
-    cross_n = cross_bad = 0
-    if getattr(mod, "CROSS_CONFIG_EQUAL", False):
-        for k, d in per_case.items():
-            if len(d) > 1:
-                cross_n += 1
-                if len(set(d.values())) > 1:
+    cross_n = cross_bad = cross_distinct = 0
+    cross_equal = getattr(mod, "CROSS_CONFIG_EQUAL", False)
+    for k, d in per_case.items():
+        if len(d) > 1:
+            cross_n += 1
+            if len(set(d.values())) > 1:
+                cross_distinct += 1
+                if cross_equal:
                     cross_bad += 1
                     violations.append({"clause": "cross-config-equal", "case": int(k), "class": "-", "key": None,
                                        "wid": -1, "hashseed": sorted(d)[0], "input": None,
                                        "info": {"digests_by_hashseed": d}})
                     n_viol += 1
                     viol_by_key["None"] += 1
+    if cross_equal:
         clauses["cross-config-equal"] += cross_n
         clause_fail["cross-config-equal"] += cross_bad
 
@@ -244,6 +247,7 @@ def check(prop, tier, seed, replay=None, repo=None, quiet=False):
                 "configurations": {"hash_seeds": sorted(hashseeds, key=lambda s: (len(s), s)),
                                    "workers": len(results),
                                    "cross_config_cases_compared": cross_n,
+                                   "cross_config_cases_with_differing_results": cross_distinct,
                                    **{k: sorted(v)[:60] for k, v in sets.items()},
                                    **{"n_" + k: len(v) for k, v in sets.items()}},
                 "sensors": dict(sensors),
